@@ -536,3 +536,56 @@ def fail_once(out, seen, sig, msg):
         return
     seen[sig] = 1
     out.fail(sig, msg)
+
+
+# ------------------------------------------------------------------------------------------- alphabet of true objects
+
+def hs_of(P, ks):
+    """HS matrix hs[a,b] = Tr(B_a^+ K(B_b)) of a Kraus list (orthonormal basis), real part checked"""
+    cols = [P.Bm.conj() @ R.kraus_apply(ks, Bb).ravel() for Bb in P.B]
+    return A.real_checked(np.array(cols).T, "hs of kraus")
+
+
+def true_objects(cx):
+    """[(name, class, stacked vector)] of the physical alphabet objects of the unknown's type:
+    class in interior / boundary / pure (extreme)"""
+    P = cx.P
+    d, seed, m = P.d, cx.seed, cx.m
+
+    def co(M):
+        return A.real_checked(P.Bm.conj() @ np.asarray(M).ravel(), "true object")
+
+    out = [("interior_point", "interior", cx.interior())]
+    if cx.kind == "state":
+        cls = {"z0": "pure", "pure_generic": "pure", "pure_fourier": "pure", "mixed_generic": "interior",
+               "boundary_generic": "boundary", "maxmixed": "interior"}
+        for n, rho in A.states_ref(d, seed).items():
+            out.append((n, cls[n], co(rho)))
+    elif cx.kind == "povm":
+        for n, Ms in A.povms_ref(d, seed, ms=(m,)).items():
+            if len(Ms) != m:
+                continue
+            c = "interior" if n.startswith("generic") else "boundary"
+            out.append((n, c, np.concatenate([co(M) for M in Ms])))
+    elif cx.kind == "gate":
+        cls = {"identity": "pure", "unitary_generic": "pure", "unitary_fourier": "pure", "dephasing": "boundary",
+               "ampdamp": "boundary", "depolarizing": "interior"}
+        for n, ks in A.gates_ref(d, seed).items():
+            out.append((n, cls.get(n, "boundary" if n.endswith("r2") else "interior"), hs_of(P, ks).ravel()))
+    else:
+        for n, ins in A.instruments_ref(d, seed, ms=(m,)).items():
+            if len(ins) != m:
+                continue
+            c = "pure" if n.startswith(("luders", "feedback", "comp")) else "boundary"
+            out.append((n, c, np.concatenate([hs_of(P, ks).ravel() for ks in ins])))
+    F = cx.F
+    for n, c, x in out:
+        if F.eq_defect(x) > 1e-11 or F.min_eig(x) < -1e-11:
+            raise AssertionError("harness: alphabet object %s not physical (%g, %g)" % (n, F.eq_defect(x), F.min_eig(x)))
+    return out
+
+
+def born_vector(cx, x, pairs):
+    """list of per-schedule reference distributions of the unknown x for the schedule list"""
+    born = cx.born_all(x, sorted(set(pairs)))
+    return [born[p] for p in pairs]
